@@ -110,8 +110,15 @@ def pattern_features(past):
 
 def run(ck: common.Check):
     # ------------------------------------------------------------------ 1. proofs + extracted model
+    import time
+    for old in common.REPLAYS.glob("C16-*.json"):  # replays of earlier runs are stale
+        old.unlink()
+    t0 = time.time()
     ok_build = ck.coq_build(ENGINE, timeout=1200)
+    ck.log("coq build: %.1fs" % (time.time() - t0))
+    t0 = time.time()
     ok_ext = ck.extract(ENGINE)
+    ck.log("extraction + driver build: %.1fs" % (time.time() - t0))
     ck.obligation("extracted-model-driver", ok_ext and DRIVER.exists(), "" if ok_ext else "extract.sh failed")
     ck.cov["trusted_base"] = [
         "Coq 8.16.1 kernel (coqc, full .vo build of coq/Find)",
@@ -139,7 +146,7 @@ def run(ck: common.Check):
         return
 
     # ------------------------------------------------------------------ 2. real implementation run
-    n_procs = ck.n(70, 700)
+    n_procs = ck.n(60, 2000)
     n_pats = ck.n(36, 60)
     nav_budget = ck.n(2500, 4000)
     sdir = common.scratch_dir("c16_run")
@@ -147,7 +154,9 @@ def run(ck: common.Check):
     seed = ck.rng.getrandbits(40)
     cmd = [common.PY, str(common.VERIF / "harness" / "c16_impl.py"), str(seed), str(n_procs), str(n_pats),
            str(nav_budget), str(sdir), str(out)]
-    rc, log = common.sh(cmd, timeout=ck.n(150, 1100), env=common.exo_env(), cwd=str(sdir))
+    t0 = time.time()
+    rc, log = common.sh(cmd, timeout=ck.n(170, 1700), env=common.exo_env(), cwd=str(sdir))
+    ck.log("implementation run: %.1fs" % (time.time() - t0))
     if rc != 0 or not out.exists():
         ck.broken_obligation("impl-driver", "rc=%s %s" % (rc, log[-600:]))
         return
@@ -164,6 +173,15 @@ def run(ck: common.Check):
     ck.cov["programs"] = len(procs)
     ck.cov["rejected_by_exo"] = len(rejects)
 
+    # the three known deviations: does Model.impl_quirks still describe the code under test?
+    qrec = [r for r in recs if r["t"] == "quirks"]
+    model_bits = run_driver(ck, ["(quirks)"], "quirks")[0]
+    if qrec:
+        ck.cov["impl_quirks(stride0,callargs,wcfg)"] = {"implementation": qrec[0]["bits"], "model": model_bits}
+        ck.obligation("Model.impl_quirks matches the implementation's probes", qrec[0]["bits"] == model_bits,
+                      "implementation exhibits quirks %s (stride-dim0, call-args-ignored, writeconfig-wildcard) but "
+                      "Model.impl_quirks = %s: flip the field(s) in coq/Find/Model.v (and drop the matching Example in "
+                      "Proofs_Quirks.v)" % (qrec[0]["bits"], model_bits))
     finds = [r for r in recs if r["t"] == "find"]
     navs = [r for r in recs if r["t"] == "nav"]
     laws = [r for r in recs if r["t"] == "law"]
@@ -275,6 +293,11 @@ def run(ck: common.Check):
         prefix = QUIRK_KEYS[expl[0]] if len(expl) >= 1 else "C16:find-mismatch:"
         key = prefix + "%s|%s" % (r["api"], r["raw"].replace("\n", "\\n"))
         nviol[prefix] = nviol.get(prefix, 0) + 1
+        if nviol[prefix] > 2:  # two concrete inputs per class are enough; the count is in the evidence
+            st = ck.stream("search-oracle")
+            st.setdefault("mismatch_by_key", {})
+            st["mismatch_by_key"][prefix] = st["mismatch_by_key"].get(prefix, 0) + 1
+            continue
         st = ck.stream("search-oracle")
         st.setdefault("mismatch_by_key", {})
         st["mismatch_by_key"][prefix] = st["mismatch_by_key"].get(prefix, 0) + 1
@@ -320,15 +343,15 @@ def run(ck: common.Check):
 
     # ------------------------------------------------------------------ 6. navigation laws on the real cursors
     for r in laws:
-        st = ck.stream("nav-laws-on-impl")
+        st = ck.stream("laws-on-impl")
         st["cases"] += r["checked"]
         ck.cov["evaluations"] += r["checked"]
         st["agree"] += r["checked"] - len(r["fails"])
         for f in r["fails"]:
             st["diverge"] += 1
-            ck.violation("C16:navlaw:%s" % f["law"], {"law": f["law"], "cursor": f["cursor"], "detail": f["detail"],
+            ck.violation("C16:%s:%s" % (f.get("kind", "navlaw"), f["law"]), {"law": f["law"], "cursor/pattern": f["cursor"], "detail": f["detail"],
                                                       "proc_src": procs[r["proc"]]["src"]},
-                         "navigation law fails on the real cursor implementation")
+                         "a navigation / find law fails on the real implementation")
 
     # distribution summary
     ck.cov["rule"] = (
